@@ -451,7 +451,7 @@ class Executor(object):
             if sa.startswith("(Seq") and sa == sb and isinstance(op, ast.Add):
                 return [(st, "ok", VT(tm.seqcat(a.t, b.t), "list"))]
             if sa == STR and isinstance(op, ast.Mod):
-                return [(st, "ok", VT(tm.fresh("fmt", STR)))]
+                return [(st, "ok", VT(tm.approx("fmt", STR)))]
         if isinstance(a, VList) and isinstance(b, VList) and isinstance(op, ast.Add):
             st, lst = self.new_list(st, list(st.get(a, "items")) + list(st.get(b, "items")))
             return [(st, "ok", lst)]
@@ -824,7 +824,32 @@ class Executor(object):
         raise Unsupported("subscript of %r by %r" % (v, idx))
 
     def e_JoinedStr(self, node, st, fr):
-        return [(st, "ok", VT(tm.fresh("fstr", STR)))]
+        """f"...{e}..." : exact when every field is a plain `{e}` (no conversion, no format spec) of a str / int / Seq
+        value -- the same text as "...{}...".format(e); anything else is an unmodelled text (tm.approx)"""
+        outs = [(st, [])]
+        res = []
+        for part in node.values:
+            nxt = []
+            for (s, pieces) in outs:
+                if isinstance(part, ast.Constant):
+                    nxt.append((s, pieces + [tm.S(str(part.value))]))
+                    continue
+                if not isinstance(part, ast.FormattedValue):
+                    raise Unsupported("f-string part %r" % (part,))
+                for (s2, tag, v) in self.eval(part.value, s, fr):
+                    if tag != "ok":
+                        res.append((s2, tag, v))
+                        continue
+                    if part.conversion != -1 or part.format_spec is not None:
+                        nxt.append((s2, pieces + [tm.approx("fstr", STR)]))
+                        continue
+                    for (s3, tag3, sv) in self.call(self.models.builtin("str"), [v], {}, s2, fr):
+                        if tag3 != "ok":
+                            res.append((s3, tag3, sv))
+                        else:
+                            nxt.append((s3, pieces + [sv.t]))
+            outs = nxt
+        return res + [(s, "ok", VT(tm.concat(*pieces) if pieces else tm.S(""))) for (s, pieces) in outs]
 
     def e_Lambda(self, node, st, fr):
         raise Unsupported("lambda")
